@@ -385,3 +385,338 @@ def check_C15(chk, binp):
     if not spec_bad and not cbad:
         for i in bad[:3]:
             chk.violation('correspondence broken (table ops): %s' % cases[i][:200], {'kind': 'correspondence', 'case': cases[i][:4000], 'code': (impl[i] or '')[:500], 'model': (model[i] or '')[:500]}, found_input=False)
+
+# ------------------------------------------------------------------ C08
+def fen_variants(rnd, fen):
+    """(class, variant fen, must_equal) pairs differing from fen in exactly one component"""
+    p = fen.split(' ')
+    out = []
+    out.append(('counters-only', ' '.join(p[:4] + [str(rnd.randrange(0, 90)), str(rnd.randrange(1, 400))]), True))
+    if p[2] != '-':
+        r = rnd.choice(p[2])
+        out.append(('one-castling-right-removed', ' '.join([p[0], p[1], p[2].replace(r, '') or '-'] + p[3:]), False))
+    out.append(('side-to-move', ' '.join([p[0], 'b' if p[1] == 'w' else 'w', p[2], '-'] + p[4:]), False))
+    if p[3] != '-':
+        out.append(('ep-target-removed', ' '.join(p[:3] + ['-'] + p[4:]), None))      # equal iff the capture was not available
+    return out
+
+def check_C08(chk, binp):
+    quick = chk.tier == 'quick'
+    rnd = random.Random(chk.seed)
+    seeds = [rnd.randrange(1 << 40) for _ in range(4 if quick else 64)]
+    pos = G.positions(chk.seed, chk.tier, 'C08')
+    hs = run_cases(binp, ['hashstream\t%d' % s for s in seeds], 'C08-hs', shards=1)
+    prel = ['sethasher\t%d\t%s' % (s, st) for s, st in zip(seeds, hs)]
+    # variants (must stay legal positions)
+    var = []
+    for f in pos:
+        for cls, v, eq in fen_variants(rnd, f):
+            var.append((f, cls, v, eq))
+    legal = set(G.filter_legal([v[2] for v in var], 'C08-lp'))
+    var = [v for v in var if v[2] in legal]
+    allf = list(dict.fromkeys(pos + [v[2] for v in var]))
+    keys = dict(zip(allf, run_cases(MODEL, ['rulekey\t' + f for f in allf], 'C08-rk')))
+    sel_seeds = seeds[:2] if quick else seeds[:8]
+    cases = ['hash\t%d\t%s' % (s, f) for f in allf for s in sel_seeds]
+    impl = run_cases(binp, cases, 'C08-impl')
+    model = run_cases(MODEL, cases, 'C08-model', prelude=prel)
+    bad = stream(chk, 'hash value per (seed, position)', cases, impl, model, 'extracted implementation model (Text.hash) with the key stream of the same seed')
+    H = {}
+    for c, r in zip(cases, impl):
+        _, s, f = c.split('\t')
+        H[(s, f)] = r
+    # property directly on the code: equal rule key <=> equal hash, for every seed
+    viol = []
+    groups = {}
+    for f in allf:
+        groups.setdefault(keys[f], []).append(f)
+    npairs = 0
+    for k, fs in groups.items():
+        for s in sel_seeds:
+            hv = set(H[(str(s), f)] for f in fs)
+            npairs += len(fs) - 1
+            if len(hv) > 1:
+                viol.append(('positions with the same placement/side/rights/ep-availability hash differently (seed %d)' % s, fs[:2], True))
+    reps = [fs[0] for fs in groups.values()]
+    byhash = {}
+    for s in sel_seeds:
+        seen = {}
+        for f in reps:
+            h = H[(str(s), f)]
+            if h in seen:
+                byhash.setdefault((seen[h], f), []).append(s)
+            seen[h] = f
+    for (f1, f2), ss in byhash.items():
+        if len(ss) == len(sel_seeds):
+            viol.append(('positions with different rule keys collide under every seed', [f1, f2], True))
+    classes = {}
+    for f, cls, v, eq in var:
+        classes[cls] = classes.get(cls, 0) + 1
+    chk.extra['variant_classes'] = classes
+    chk.extra['rulekey_groups'] = len(groups)
+    chk.extra['transposition_groups_with_several_members'] = sum(1 for fs in groups.values() if len(fs) > 1)
+    chk.extra['seeds'] = len(sel_seeds)
+    chk.streams.append({'name': 'equal rule key <=> equal hash under every seed (pairs differing in one component, transpositions)', 'against': 'rule key computed by the extracted rules specification', 'cases': npairs + len(reps), 'disagreements': len(viol)})
+    chk.evaluations += npairs
+    for f in allf:
+        chk.distinct.add(f)
+    chk.rule = 'positions as in C01 plus one-component variants (counters, one right, side, ep target); grouped by the rule key that the extracted Rules compute; every hasher seed of the run'
+    chk.samples += [{'pair': [v[0], v[2]], 'class': v[1]} for v in var[:3]]
+    for what, fs, found in viol[:3]:
+        chk.violation('%s: %s' % (what, fs), {'kind': 'input', 'fens': fs, 'what': what}, found_input=True)
+    if not viol:
+        for i in bad[:3]:
+            chk.violation('correspondence broken (hash): %s code=%s model=%s' % (cases[i], impl[i], model[i]), {'kind': 'correspondence', 'case': cases[i]}, found_input=False)
+
+# ------------------------------------------------------------------ C10
+def arbitrary_placements(rnd, n):
+    out = []
+    for _ in range(n):
+        k = rnd.randrange(0, 20)
+        sqs = rnd.sample(range(64), k)
+        m = {s: rnd.choice('PNBRQKpnbrqk') for s in sqs}
+        out.append(G.fen_from_map(m, rnd.choice('wb')))
+    return out
+
+def check_C10(chk, binp):
+    quick = chk.tier == 'quick'
+    rnd = random.Random(chk.seed)
+    pos = G.positions(chk.seed, chk.tier, 'C10') + arbitrary_placements(rnd, 400 if quick else 8000)
+    cases = ['attacks\t' + f for f in pos]
+    impl = run_cases(binp, cases, 'C10-impl')
+    model = run_cases(MODEL, cases, 'C10-model')
+    spec = run_cases(MODEL, ['specattacks\t' + f for f in pos], 'C10-spec')
+    bm = stream(chk, 'attacked-square sets, pawn attack sets, check flags, both colours', cases, impl, model, 'extracted implementation model (Board.v)')
+    bs = stream(chk, 'attacked-square sets, pawn attack sets, check flags, both colours', cases, impl, spec, 'extracted rules specification (attacks_from per piece, minus own squares)')
+    opsl = ['aw', 'ab', 'pw', 'pb', 'cw', 'cb', 'clone', 'switch']
+    oc = []
+    for f in rnd.sample(pos, min(len(pos), 300 if quick else 4000)):
+        oc.append('attackops\t%s\t%s' % (f, ','.join(rnd.choice(opsl) for _ in range(rnd.randrange(2, 25)))))
+    oi = run_cases(binp, oc, 'C10-ops-impl')
+    om = run_cases(MODEL, oc, 'C10-ops-model')
+    bo = stream(chk, 'query/clone op sequences on one position object', oc, oi, om, 'extracted model of the OnceCell cache (answers are pure)')
+    # purity directly: every answer of a sequence equals the fresh answer
+    fresh = dict(zip(pos, impl))
+    pure_bad = []
+    for c, r in zip(oc, oi):
+        f, ops = c.split('\t')[1:]
+        base = (fresh.get(f) or '').split(',')
+        if r is None or len(base) < 7:
+            continue
+        idx = {'aw': 0, 'ab': 1, 'pw': 2, 'pb': 3, 'cw': 4, 'cb': 5}
+        ans = r.split(',') if r else []
+        j = 0
+        for op in ops.split(','):
+            if op in idx:
+                if j >= len(ans) or ans[j] != base[idx[op]]:
+                    pure_bad.append(c); break
+                j += 1
+    chk.streams.append({'name': 'answers independent of query order and clones', 'against': 'the fresh answers of the same code', 'cases': len(oc), 'disagreements': len(pure_bad)})
+    for f in pos:
+        chk.distinct.add(f.split(' ')[0])
+    chk.extra['arbitrary_placements'] = sum(1 for f in pos if f.count('K') != 1 or f.count('k') != 1)
+    chk.rule = 'legal positions as in C01 plus random arbitrary placements (0..19 pieces, any number of kings, pawns anywhere); distinct by placement'
+    chk.samples += [{'fen': pos[-1], 'code': impl[-1]}, {'ops': oc[0], 'code': oi[0]}]
+    for i in bs[:3]:
+        chk.violation('attack sets / check differ from the rules on %s: code %s, rules %s' % (pos[i], impl[i], spec[i]), {'kind': 'input', 'fen': pos[i], 'code': impl[i], 'spec': spec[i]}, found_input=True)
+    for c in pure_bad[:3]:
+        chk.violation('answers depend on query order / clones: %s' % c, {'kind': 'history', 'case': c}, found_input=True)
+    if not bs and not pure_bad:
+        for i in bm[:2]:
+            chk.violation('correspondence broken (attacks) on %s' % pos[i], {'kind': 'correspondence', 'fen': pos[i]}, found_input=False)
+        for i in bo[:2]:
+            chk.violation('correspondence broken (attack ops) on %s' % oc[i], {'kind': 'correspondence', 'case': oc[i]}, found_input=False)
+
+# ------------------------------------------------------------------ C11
+def rights_subsets(r):
+    if r == '-':
+        return ['-']
+    out = set()
+    for mask in range(1 << len(r)):
+        sub = ''.join(ch for i, ch in enumerate(r) if mask >> i & 1)
+        out.add(sub or '-')
+    return sorted(out)
+
+def check_C11(chk, binp):
+    quick = chk.tier == 'quick'
+    rnd = random.Random(chk.seed)
+    pos = G.positions(chk.seed, chk.tier, 'C11')        # written by the independent writer FenSpec.write (playouts) or by the generators
+    canon = []
+    for f in pos:
+        p = f.split(' ')
+        canon.append(f)
+        if rnd.random() < 0.5:
+            for r in rights_subsets(p[2])[:16]:
+                canon.append(' '.join([p[0], p[1], r, p[3], rnd.choice(['0', '1', '99', '4294967296', '18446744073709551615']), rnd.choice(['1', '2', '4294967295', '18446744073709551615', '18446744073709551614'])]))
+    canon = list(dict.fromkeys(canon))
+    c1 = ['fenrt\t' + G.esc(f) for f in canon]
+    i1 = run_cases(binp, c1, 'C11-rt-impl')
+    m1 = run_cases(MODEL, c1, 'C11-rt-model')
+    b1 = stream(chk, 'write(read(str)) on canonical strings', c1, i1, m1, 'extracted implementation model (fen_read / fen_write)')
+    notid = [i for i, (f, r) in enumerate(zip(canon, i1)) if r != 'ok ' + f]
+    chk.streams.append({'name': 'canonical FEN reproduced character for character', 'against': 'the input string itself (written by the independent writer)', 'cases': len(canon), 'disagreements': len(notid)})
+    c2 = ['fensame\t' + G.esc(f) for f in canon]
+    i2 = run_cases(binp, c2, 'C11-same-impl')
+    ns = [i for i, r in enumerate(i2) if r is None or not r.startswith('same ')]
+    chk.streams.append({'name': 'position written and read back: equal state, same FEN again, same legal moves, hash, evaluation', 'against': 'self-consistency of the code on play-reached states', 'cases': len(canon), 'disagreements': len(ns)})
+    strs = G.fen_strings(chk.seed, canon, 3000 if quick else 100000)
+    c3 = ['fenrt\t' + G.esc(s) for s in strs]
+    i3 = run_cases(binp, c3, 'C11-mut-impl')
+    m3 = run_cases(MODEL, c3, 'C11-mut-model')
+    b3 = stream(chk, 'reader outcome (Ok fen / Err) on mutated strings', c3, i3, m3, 'extracted implementation model')
+    chk.extra['outcome_classes_mutated'] = hist([(r or 'none').split(' ')[0] for r in i3])
+    chk.extra['ep_rank_counts'] = hist([f.split(' ')[3][1:] if f.split(' ')[3] != '-' else '-' for f in canon])
+    chk.extra['rights_sets_seen'] = len(set(f.split(' ')[2] for f in canon))
+    for f in canon:
+        chk.distinct.add(f)
+    chk.rule = 'canonical strings: positions reached by spec playouts (written by the independent FenSpec.write), corpus, small families, with all subsets of the held castling rights and extreme counters; plus seeded mutations'
+    chk.samples += [{'str': canon[len(canon) // 2], 'code': i1[len(canon) // 2]}]
+    for i in notid[:3]:
+        chk.violation('canonical FEN not reproduced: %s -> %s' % (canon[i], i1[i]), {'kind': 'input', 'fen': canon[i], 'code': i1[i]}, found_input=True)
+    for i in ns[:3]:
+        chk.violation('position changes when written and read back: %s -> %s' % (canon[i], i2[i]), {'kind': 'input', 'fen': canon[i], 'code': i2[i]}, found_input=True)
+    if not notid and not ns:
+        for i in (b1 + b3)[:3]:
+            c = (c1 + c3)[i] if i < len(c1) else c3[i]
+        for i in b1[:2]:
+            chk.violation('correspondence broken (fen round trip) on %s: code %s model %s' % (c1[i], i1[i], m1[i]), {'kind': 'correspondence', 'case': c1[i]}, found_input=False)
+        for i in b3[:2]:
+            chk.violation('correspondence broken (fen reader) on %s: code %s model %s' % (c3[i], i3[i], m3[i]), {'kind': 'correspondence', 'case': c3[i]}, found_input=False)
+
+# ------------------------------------------------------------------ C13 / C05
+def mirror_fen(f):
+    p = f.split(' ')
+    rows = p[0].split('/')[::-1]
+    rows = [r.swapcase() for r in rows]
+    side = 'b' if p[1] == 'w' else 'w'
+    if p[2] == '-':
+        rights = '-'
+    else:
+        sw = p[2].swapcase()
+        rights = ''.join(ch for ch in 'KQkq' if ch in sw)
+    ep = p[3] if p[3] == '-' else p[3][0] + str(9 - int(p[3][1]))
+    return ' '.join(['/'.join(rows), side, rights, ep, p[4], p[5]])
+
+PLIES = '0,1,2,5,9,10,11,12,40'
+def mate_score(d):
+    return 10000 + 100 * max(10 - d, 0)
+
+def mating_family(rnd, n):
+    """K+k+heavy pieces with the lone king near the rim: rich in mates and stalemates"""
+    out = []
+    rim = [s for s in range(64) if s % 8 in (0, 7) or s // 8 in (0, 7)]
+    for _ in range(n):
+        bk = rnd.choice(rim)
+        near = [s for s in range(64) if s != bk and max(abs(s % 8 - bk % 8), abs(s // 8 - bk // 8)) <= 3]
+        extra = rnd.choice(['Q', 'R', 'QQ', 'RR', 'QR', 'QB', 'RN', 'Qp', 'Rp', 'QP', 'BB', 'BN'])
+        sqs = rnd.sample(near, min(len(near), 1 + len(extra)))
+        if len(sqs) < 1 + len(extra):
+            continue
+        m = {bk: 'k', sqs[0]: 'K'}
+        okp = True
+        for s, c in zip(sqs[1:], extra):
+            if c in 'Pp' and (s < 8 or s >= 56):
+                okp = False
+            m[s] = c
+        if not okp:
+            continue
+        f = G.fen_from_map(m, 'b')
+        out.append(f if rnd.random() < 0.5 else mirror_fen(f))
+    return out
+
+def eval_positions(chk, tag):
+    quick = chk.tier == 'quick'
+    rnd = random.Random(chk.seed + 5)
+    pos = G.positions(chk.seed, chk.tier, tag)
+    fam = mating_family(rnd, 6000 if quick else 200000)
+    pos += G.filter_legal(list(dict.fromkeys(fam)), tag + '-mf')
+    return list(dict.fromkeys(pos))
+
+def check_C13(chk, binp):
+    pos = eval_positions(chk, 'C13')
+    mir = [mirror_fen(f) for f in pos]
+    c = ['eval\t%s\t%s' % (f, PLIES) for f in pos]
+    cm = ['eval\t%s\t%s' % (f, PLIES) for f in mir]
+    impl = run_cases(binp, c, 'C13-impl')
+    implm = run_cases(binp, cm, 'C13-implm')
+    model = run_cases(MODEL, c, 'C13-model')
+    bm = stream(chk, 'exact integer scores, both perspectives, plies ' + PLIES, c, impl, model, 'extracted implementation model (bit-exact f32 evaluator)')
+    neg = []; mirb = []
+    for i, (a, b) in enumerate(zip(impl, implm)):
+        if a is None or b is None or a in ('panic', 'badfen') or b in ('panic', 'badfen'):
+            neg.append(i); continue
+        pa = [x.split('/') for x in a.split(',')]
+        pb = [x.split('/') for x in b.split(',')]
+        if any(int(w) != -int(bl) for w, bl in pa):
+            neg.append(i)
+        # mirrored position, mirrored perspective: white score of s = black score of mirror s
+        if any(int(x[0]) != int(y[1]) or int(x[1]) != int(y[0]) for x, y in zip(pa, pb)):
+            mirb.append(i)
+    chk.streams.append({'name': 'score(White) = -score(Black)', 'against': 'the equation itself (metamorphic)', 'cases': len(pos), 'disagreements': len(neg)})
+    chk.streams.append({'name': 'score(mirror s, opposite perspective) = score(s, perspective)', 'against': 'the equation itself (metamorphic)', 'cases': len(pos), 'disagreements': len(mirb)})
+    chk.evaluations += 2 * len(pos)
+    term = sum(1 for a in impl if a and abs(int(a.split(',')[0].split('/')[0])) >= 10000)
+    chk.extra['terminal_scored_positions'] = term
+    for f in pos:
+        chk.distinct.add(f.split(' ')[0] + f.split(' ')[1])
+    chk.rule = 'positions as in C01 plus K+k+heavy-piece families rich in mates/stalemates, each with its colour-mirrored twin; distinct by placement and side'
+    chk.samples += [{'fen': pos[0], 'mirror': mir[0], 'code': impl[0], 'code_mirror': implm[0]}]
+    for i in neg[:3]:
+        chk.violation('White and Black scores are not negations on %s: %s' % (pos[i], impl[i]), {'kind': 'input', 'fen': pos[i], 'code': impl[i]}, found_input=True)
+    for i in mirb[:3]:
+        chk.violation('mirrored position scores differently: %s -> %s ; %s -> %s' % (pos[i], impl[i], mir[i], implm[i]), {'kind': 'input', 'fen': pos[i], 'mirror': mir[i], 'code': impl[i], 'code_mirror': implm[i]}, found_input=True)
+    if not neg and not mirb:
+        for i in bm[:3]:
+            chk.violation('correspondence broken (evaluator) on %s: code %s model %s' % (pos[i], impl[i], model[i]), {'kind': 'correspondence', 'fen': pos[i], 'code': impl[i], 'model': model[i]}, found_input=False)
+
+def check_C05(chk, binp):
+    pos = eval_positions(chk, 'C05')
+    c = ['eval\t%s\t%s' % (f, PLIES) for f in pos]
+    impl = run_cases(binp, c, 'C05-impl')
+    model = run_cases(MODEL, c, 'C05-model')
+    term = run_cases(MODEL, ['specterm\t' + f for f in pos], 'C05-term')
+    bm = stream(chk, 'exact integer scores, both perspectives, plies ' + PLIES, c, impl, model, 'extracted implementation model (bit-exact f32 evaluator)')
+    plies = [int(x) for x in PLIES.split(',')]
+    bad = []
+    counts = {'mate': 0, 'stale': 0, 'none': 0}
+    for i, (f, a, t) in enumerate(zip(pos, impl, term)):
+        if t not in counts:
+            continue
+        counts[t] += 1
+        if a is None or a in ('panic', 'badfen'):
+            bad.append((i, 'no score (%s)' % a)); continue
+        white_to_move = f.split(' ')[1] == 'w'
+        for d, x in zip(plies, a.split(',')):
+            w, b = [int(v) for v in x.split('/')]
+            if t == 'mate':
+                exp_w = -mate_score(d) if white_to_move else mate_score(d)
+                if (w, b) != (exp_w, -exp_w):
+                    bad.append((i, 'checkmate scored %d/%d at ply %d, expected %d/%d' % (w, b, d, exp_w, -exp_w))); break
+            elif t == 'stale':
+                if (w, b) != (0, 0):
+                    bad.append((i, 'stalemate scored %d/%d' % (w, b))); break
+            else:
+                imbalance = abs(material(f))
+                if imbalance < 9000 and (abs(w) >= 10000 or abs(b) >= 10000):
+                    bad.append((i, 'position with a legal move scored terminal %d/%d' % (w, b))); break
+    chk.streams.append({'name': 'mate / stalemate / non-terminal classification and exact mate scores', 'against': 'extracted rules specification (Rules.checkmate / stalemate)', 'cases': len(pos), 'disagreements': len(bad)})
+    chk.evaluations += len(pos)
+    mono = all(mate_score(d) >= 10000 and mate_score(d + 1) <= mate_score(d) for d in range(0, 64))
+    chk.extra['class_counts'] = counts
+    for f in pos:
+        chk.distinct.add(f.split(' ')[0] + f.split(' ')[1])
+    chk.rule = 'positions as in C01 plus K+k+heavy-piece families rich in mates/stalemates (classified by the extracted Rules); distinct by placement and side'
+    chk.samples += [{'fen': pos[i], 'class': term[i], 'code': impl[i]} for i in range(len(pos)) if term[i] in ('mate', 'stale')][:3]
+    for i, msg in bad[:3]:
+        chk.violation('%s: %s' % (pos[i], msg), {'kind': 'input', 'fen': pos[i], 'what': msg, 'code': impl[i]}, found_input=True)
+    if not bad:
+        for i in bm[:3]:
+            chk.violation('correspondence broken (evaluator) on %s: code %s model %s' % (pos[i], impl[i], model[i]), {'kind': 'correspondence', 'fen': pos[i]}, found_input=False)
+
+WORTH = {'p': 100, 'n': 300, 'b': 350, 'r': 500, 'q': 900, 'k': 10000}
+def material(f):
+    t = 0
+    for ch in f.split(' ')[0]:
+        if ch.lower() in WORTH:
+            t += WORTH[ch.lower()] if ch.isupper() else -WORTH[ch.lower()]
+    return t
